@@ -804,5 +804,8 @@ for _p in ("C20", "C13"):
 PROPS["C13"]["rules"] = PROPS["C13"]["rules"] + [rules_handles.rule_sd_file_id_halves]
 PROPS["C13"]["explanation"] += " (IDHALVES) the SD id validator compares the two copies of the file slot that a file id carries."
 
+PROPS["C13"]["rules"] = PROPS["C13"]["rules"] + [rules_handles.rule_index_below_count]
+PROPS["C13"]["explanation"] += " (IDXCOUNT) an index that goes on to address an NC_array is turned away when it is >= count, not only when it is > count."
+
 NOT_APPLICABLE = {}
 
